@@ -68,7 +68,7 @@
 EXTENDS Integers, FiniteSets, Sequences, TLC
 
 CONSTANTS Inst, Shard, MaxStreams, MaxEnv, MaxMsg,
-          AllowHold, AllowBreak, AllowRemove, AllowStall, Cap,
+          AllowHold, AllowBreak, AllowRemove, AllowStall, Cap, Warm, AllowTopo,
           FixSenderPrune, FixGuardedDelete, FixOpening, FixPeerKey
 
 Cluster(sh) == sh \div 10
@@ -108,13 +108,22 @@ InitRest ==
         /\ pc = [i \in Inst |-> "idle"] /\ des = [i \in Inst |-> [r |-> {}, s |-> {}]] /\ todo = [i \in Inst |-> {}]
         /\ hold = [i \in Inst |-> FALSE] /\ frozen = FALSE /\ nenv = 0 /\ msgs = {}
         /\ wire = [x \in Inst \X Inst |-> <<>>] /\ stall = {}
-Init == local = [i \in Inst |-> {}] /\ view = [i \in Inst |-> [p \in Inst |-> {}]] /\ InitRest
+\* Warm: the run starts with one shard of either cluster local to each of the first two instances and accurate views (the
+\* commands that produce this state are the first four of the schedule), so that most of the schedule is spent on streams
+WA == CHOOSE i \in Inst : TRUE
+WB == CHOOSE i \in Inst \ {WA} : TRUE
+W1 == CHOOSE sh \in Shard : \A x \in Shard : sh <= x
+W2 == CHOOSE sh \in Shard : Cluster(sh) # Cluster(W1) /\ \A x \in Shard : Cluster(x) # Cluster(W1) => sh <= x
+Init == /\ InitRest
+        /\ IF Warm THEN /\ local = [i \in Inst |-> IF i = WA THEN {W1} ELSE IF i = WB THEN {W2} ELSE {}]
+                         /\ view = [i \in Inst |-> [p \in Inst |-> IF i = WA /\ p = WB THEN {W2} ELSE IF i = WB /\ p = WA THEN {W1} ELSE {}]]
+           ELSE local = [i \in Inst |-> {}] /\ view = [i \in Inst |-> [p \in Inst |-> {}]]
 
 ----------------------------------------------------------------------------
 (* environment *)
 Env == ~frozen /\ nenv < MaxEnv /\ nenv' = nenv + 1
 AddLocal(i, sh) ==
-  /\ Env /\ \A j \in Inst : sh \notin local[j]          \* ownership conflicts are the business of spec/Gossip
+  /\ Env /\ AllowTopo /\ \A j \in Inst : sh \notin local[j]          \* ownership conflicts are the business of spec/Gossip
   /\ local' = [local EXCEPT ![i] = @ \cup {sh}]
   /\ UNCHANGED <<view, st, rtab, stab, pc, des, todo, hold, frozen, msgs, wire, stall>>
 RemoveLocal(i, sh) ==
@@ -123,12 +132,12 @@ RemoveLocal(i, sh) ==
   /\ UNCHANGED <<view, st, rtab, stab, pc, des, todo, hold, frozen, msgs, wire, stall>>
 \* a state push of p (current or stale, or of a shard set p never held) is merged at i; at most one owner per shard in a view
 SetView(i, p, S) ==
-  /\ Env /\ i # p /\ S # view[i][p] /\ S # {}
+  /\ Env /\ AllowTopo /\ i # p /\ S # view[i][p] /\ S # {}
   /\ \A q \in Inst \ {p} : S \cap view[i][q] = {}
   /\ view' = [view EXCEPT ![i][p] = S]
   /\ UNCHANGED <<local, st, rtab, stab, pc, des, todo, hold, frozen, msgs, wire, stall>>
 Leave(i, p) ==
-  /\ Env /\ i # p /\ view[i][p] # {}
+  /\ Env /\ AllowTopo /\ i # p /\ view[i][p] # {}
   /\ view' = [view EXCEPT ![i][p] = {}]
   /\ UNCHANGED <<local, st, rtab, stab, pc, des, todo, hold, frozen, msgs, wire, stall>>
 \* the server of j becomes unreachable: established connections to it die, new ones do not get ready until Unhold
